@@ -329,8 +329,26 @@ fn remote_note_case(which: RemoteNote, repeated_state: bool, remote_gone: bool) 
     outcome
 }
 
+/// Reachability witnesses per harness mode (a `kani::cover!` in a branch that is dead for the
+/// harness's constants would be reported unsatisfiable, i.e. as vacuity).
+macro_rules! note_covers {
+    (repeated, $o:ident) => {
+        assert!($o == NoteOutcome::Repeated);
+        kani::cover!($o == NoteOutcome::Repeated, "repeated notification rejected");
+    };
+    (kept, $o:ident) => {
+        assert!($o != NoteOutcome::Repeated);
+        kani::cover!($o == NoteOutcome::Kept, "port kept");
+    };
+    (kept_or_freed, $o:ident) => {
+        assert!($o != NoteOutcome::Repeated);
+        kani::cover!($o == NoteOutcome::Kept, "port kept");
+        kani::cover!($o == NoteOutcome::Freed, "port released by the notification");
+    };
+}
+
 macro_rules! remote_note_harness {
-    ($($name:ident, $which:expr, $rep:expr, $gone:expr, $props:literal, $doc:literal;)*) => {$(
+    ($($name:ident, $which:expr, $rep:expr, $gone:expr, $mode:tt, $props:literal, $doc:literal;)*) => {$(
         with_lean_model! {
         #[doc = $props]
         /// @tier quick
@@ -344,29 +362,21 @@ macro_rules! remote_note_harness {
         #[kani::stub(alloc::fmt::format, empty_format)]
         fn $name() {
             let o = remote_note_case($which, $rep, $gone);
-            if $rep && $which != RemoteNote::ReceiveFinish {
-                assert!(o == NoteOutcome::Repeated);
-                kani::cover!(o == NoteOutcome::Repeated, "repeated notification rejected");
-            } else {
-                kani::cover!(o == NoteOutcome::Kept, "port kept");
-                if $gone && $which != RemoteNote::ReceiveClose {
-                    kani::cover!(o == NoteOutcome::Freed, "port released by the notification");
-                }
-            }
+            note_covers!($mode, o);
         }
         }
     )*};
 }
 
 remote_note_harness! {
-    c07_msg_send_finish, RemoteNote::SendFinish, false, false, "@prop C07 C11 C08", "first SendFinish (remote receiver still there) queues the end-of-stream marker for the local receiver, sets only remote_sender_finished and keeps the port";
-    c07_msg_send_finish_releases, RemoteNote::SendFinish, false, true, "@prop C07 C11 C08", "first SendFinish after the remote receiver was dropped queues the end-of-stream marker, sets only remote_sender_finished and releases the port iff all four conditions hold";
-    c07_msg_send_finish_twice, RemoteNote::SendFinish, true, false, "@prop C07 C08", "a second SendFinish is a Protocol error with no state change; never panics";
-    c11_msg_receive_close, RemoteNote::ReceiveClose, false, false, "@prop C11 C07 C08", "first ReceiveClose closes the credit pool gracefully, raises the hang-up flag, fires the notifiers once and wakes blocked senders; it never releases the port";
-    c11_msg_receive_close_twice, RemoteNote::ReceiveClose, true, false, "@prop C11 C08", "ReceiveClose after the remote receiver was already closed or dropped is a Protocol error with no state change; never panics";
-    c11_msg_receive_finish, RemoteNote::ReceiveFinish, false, false, "@prop C11 C07 C08", "ReceiveFinish on an open pool closes it non-gracefully, raises the hang-up flag, wakes blocked senders, sets remote_receiver_dropped and releases the port iff all four conditions hold";
-    c11_msg_receive_finish_releases, RemoteNote::ReceiveFinish, false, true, "@prop C11 C07 C08", "ReceiveFinish after the remote sender finished closes the pool non-gracefully, sets remote_receiver_dropped and releases the port iff all four conditions hold";
-    c11_msg_receive_finish_after_close, RemoteNote::ReceiveFinish, true, false, "@prop C11 C07 C08", "ReceiveFinish after ReceiveClose keeps the earlier classification, sets remote_receiver_dropped and releases the port iff all four conditions hold";
+    c07_msg_send_finish, RemoteNote::SendFinish, false, false, kept, "@prop C07 C11 C08", "first SendFinish (remote receiver still there) queues the end-of-stream marker for the local receiver, sets only remote_sender_finished and keeps the port";
+    c07_msg_send_finish_releases, RemoteNote::SendFinish, false, true, kept_or_freed, "@prop C07 C11 C08", "first SendFinish after the remote receiver was dropped queues the end-of-stream marker, sets only remote_sender_finished and releases the port iff all four conditions hold";
+    c07_msg_send_finish_twice, RemoteNote::SendFinish, true, false, repeated, "@prop C07 C08", "a second SendFinish is a Protocol error with no state change; never panics";
+    c11_msg_receive_close, RemoteNote::ReceiveClose, false, false, kept, "@prop C11 C07 C08", "first ReceiveClose closes the credit pool gracefully, raises the hang-up flag, fires the notifiers once and wakes blocked senders; it never releases the port";
+    c11_msg_receive_close_twice, RemoteNote::ReceiveClose, true, false, repeated, "@prop C11 C08", "ReceiveClose after the remote receiver was already closed or dropped is a Protocol error with no state change; never panics";
+    c11_msg_receive_finish, RemoteNote::ReceiveFinish, false, false, kept, "@prop C11 C07 C08", "ReceiveFinish on an open pool closes it non-gracefully, raises the hang-up flag, wakes blocked senders, sets remote_receiver_dropped and releases the port iff all four conditions hold";
+    c11_msg_receive_finish_releases, RemoteNote::ReceiveFinish, false, true, kept_or_freed, "@prop C11 C07 C08", "ReceiveFinish after the remote sender finished closes the pool non-gracefully, sets remote_receiver_dropped and releases the port iff all four conditions hold";
+    c11_msg_receive_finish_after_close, RemoteNote::ReceiveFinish, true, false, kept, "@prop C11 C07 C08", "ReceiveFinish after ReceiveClose keeps the earlier classification, sets remote_receiver_dropped and releases the port iff all four conditions hold";
 }
 
 fn unknown_port_case(kind: u8) {
